@@ -110,7 +110,7 @@ def gen_scenario(rng: random.Random, feat: dict | None = None) -> dict:
             if not members:
                 break
             rhs = rng.choice(members)
-            n_at = rng.choice([1, 1, 1, 2, 2, 3])
+            n_at = rng.choice([2, 3, 3]) if feat.get("nest") else rng.choice([1, 1, 1, 2, 2, 3])
             ats = []
             for _ in range(n_at):
                 up = rng.choice(tasks)
@@ -147,6 +147,11 @@ def gen_scenario(rng: random.Random, feat: dict | None = None) -> dict:
                 e = uniq[0]
             elif len(uniq) == 2:
                 e = {"op": rng.choice(["and", "or"]), "args": uniq}
+            elif feat.get("nest"):
+                # mixed AND/OR with the parenthesised group on either side: (x | y) & z, z & (x | y), ...
+                o1 = rng.choice(["and", "or"])
+                grp = {"op": "or" if o1 == "and" else "and", "args": uniq[1:]}
+                e = {"op": o1, "args": [uniq[0], grp] if rng.random() < 0.5 else [grp, uniq[0]]}
             else:
                 e = {"op": rng.choice(["and", "or"]),
                      "args": [uniq[0], {"op": rng.choice(["and", "or"]), "args": uniq[1:]}]}
@@ -212,6 +217,13 @@ def gen_scenario(rng: random.Random, feat: dict | None = None) -> dict:
         "disorder": rng.choice([0.0, 0.0, 0.2]) if feat.get("disorder", True) else 0.0,
         "ops": [],
     }
+    if feat.get("submit_delay"):
+        # job-submission commands take this many main-loop iterations (tasks stay 'preparing' meanwhile)
+        scn["submit_delay"] = rng.choice([1, 2, 3])
+    if feat.get("slow"):
+        # some tasks' jobs take several main-loop iterations longer: separates in time the atoms of an expression
+        scn["slow"] = {t: rng.choice([0, 0, 4, 7]) for t in tasks}
+        scn["max_ticks"] = 110
     if feat.get("hold"):
         g = instance_graph(scn)["inst"]
         ids = sorted(g)
